@@ -1077,6 +1077,22 @@ func c02SlicesA(thorough bool) []c02Slice {
 		}
 		long = append(long, t)
 	}
+	// front-heavy tables: the loaders estimate the record count from the first 300 records; long records first make
+	// the estimate fall short of the real count, so the record buffer has to grow a second time
+	for _, n := range []int{1300, 700} {
+		t := m.Table{Header: []string{"c1", "c2"}}
+		for i := 0; i < n; i++ {
+			pad := ""
+			if i < 300 {
+				pad = strings.Repeat("y", 90)
+			}
+			t.Rows = append(t.Rows, []m.Cell{m.Str(fmt.Sprintf("r%d", i)), m.Str(pad)})
+		}
+		long = append(long, t)
+		if !thorough {
+			break
+		}
+	}
 	g5 := c02Grid{Formats: c02AllFormats, Encs: []string{"UTF8"}, LBs: []string{"LF"}, Strip: []bool{false}, Paths: c02AllPaths}
 	if thorough {
 		g5.LBs = []string{"LF", "CRLF"}
